@@ -94,8 +94,11 @@ def main(ck, tier, w):
 
         H, K = r0.randbytes(20), b'\x03' + r0.randbytes(32)
 
+        cb_ids = {}
+
         def txs_fn(h, c):
             txs = [btc.coinbase(h, None, outs=[{'val': 50 * 10 ** 8, 'spk': btc.p2pkh(r0.randbytes(20))}])]
+            cb_ids[h] = btc.txid(txs[0])
             if h >= 1 and k == -3:
                 huge = [b'\x4e\xff\xff\xff\xff\x00', b'\x6a\x4e\xff\xff\xff\x7f', b'\x4e\x00\x00\x00\x80' + b'x' * 30, b'\x76\xa9\x4e\xfe\xff\xff\xff' + b'y' * 20 + b'\x88\xac',
                         b'\x4d\xff\xff', b'\x00\x4e\xff\xff\xff\xff', b'\x51\x4e\x00\x00\x00\x40' + b'z' * 33 + b'\x51\xae']
@@ -108,13 +111,16 @@ def main(ck, tier, w):
                             'outs': [{'val': 100 + n, 'spk': x} for n, x in enumerate(looks[h - 1::3])] + [{'val': 5, 'spk': btc.p2pkh(r0.randbytes(20))}], 'lock': h})
                 txs.append({'ver': 1, 'ins': [{'txid': r0.randbytes(32), 'idx': 3, 'sig': b'', 'seq': 7}], 'outs': [{'val': 6, 'spk': btc.p2pkh(r0.randbytes(20))}], 'lock': h})
             elif h >= 1 and k == -1:
-                txs.append({'ver': 1, 'ins': [{'txid': r0.randbytes(32), 'idx': 1, 'sig': b'\x01\x01', 'seq': 5}],
+                # (this transaction has OP_RETURN outputs only and spends the previous block's coinbase: what its outputs hold never
+                # decides whether its inputs are spent)
+                txs.append({'ver': 1, 'ins': [{'txid': cb_ids.get(h - 1, r0.randbytes(32)), 'idx': 1 if h >= 2 else 0, 'sig': b'\x01\x01', 'seq': 5}],
                             'outs': [{'val': n, 'spk': x} for n, x in enumerate(
                                 # well-known data carriers (witness commitment header, Omni, runestone) BEFORE and between the texts: what
                                 # one output holds never decides whether its siblings are reported
                                 [b'\x6a\x24\xaa\x21\xa9\xed' + r0.randbytes(32)] + texts[h - 1::3][:4] + [b'\x6a\x26\xaa\x21\xa9\xed' + r0.randbytes(34), b'\x6a\x5d\x02\x01\x02',
                                                                                                   b'\x6a\x14omni' + r0.randbytes(16)] + texts[h - 1::3][4:])], 'lock': h})
                 txs[0]['outs'] = [{'val': 0, 'spk': b'\x6a\x24\xaa\x21\xa9\xed' + r0.randbytes(32)}] + txs[0]['outs'] + [{'val': 0, 'spk': b'\x6a' + btc.push(b'pool tag %d' % h)}]
+                cb_ids[h] = btc.txid(txs[0])
             elif h >= 1:
                 s = pick[(h * 3) % len(pick)]
                 t = pick[(h * 3 + 1) % len(pick)]
